@@ -7,7 +7,7 @@ from hypothesis import strategies as st
 import gen
 import model as M
 import drive
-from common import ModelRun, model_classes, cx
+from common import ModelRun, model_classes, cx, chi_floor
 from drive import Result, run_mpi
 
 RULE = ("Hypothesis generates a model (N<=4 quick, <=5 thorough), a parallel configuration (P in {1,2,3,4,5,7,8} ranks (16 thorough), "
@@ -99,6 +99,7 @@ def execute(case, ctx):
     if case["delay_us"]:
         classes.append("delays")
     sc = scenario(case)
+    FLOOR[0] = chi_floor(mdl["beta"], M.n_modes(mdl["sites"]))
     flavour = "complex" if mdl["cplx"] else "real"
     t0 = time.time()
     ref = ctx.run(flavour, sc, timeout=300, fresh=True)
@@ -195,8 +196,13 @@ def execute(case, ctx):
     return Result("ok", sorted(set(classes)), nontrivial)
 
 
+FLOOR = [1e-13]
+
+
 def vmax(vals):
-    return max([abs(v) for v in vals] + [1e-300])
+    # absolute rounding floor (set per case from beta and the number of modes) so that components that vanish by symmetry
+    # and are returned as summation noise are not compared relative to themselves
+    return max([abs(v) for v in vals] + [1e9 * FLOOR[0]])
 
 
 def cmp_vals(x, y):
